@@ -142,3 +142,42 @@ def decode_roots(F):
         elif takes_bytes and not encoder and not takes_mut_bytes:
             roots.append(path)
     return roots
+
+
+def _is_u8_seq(F, t):
+    t = F.types[t] if isinstance(t, int) else t
+    if isinstance(t, dict) and t["k"] in ("slice", "array"):
+        of = F.types[t["of"]] if isinstance(t["of"], int) else t["of"]
+        return of == "u8"
+    return False
+
+
+def encode_roots(F):
+    """externally callable functions that emit bytes: they take a generic writer (`&mut T`), a `&mut [u8]`, a
+    `&mut Vec<u8>` or a crate writer type, or they are methods of writer:: / LimitedReader types"""
+    roots = []
+    for b in F.body_list:
+        if b["kind"] == "Closure" or b.get("unsafe") or b.get("derived"):
+            continue
+        path = b["path"]
+        if path.startswith(("<err::", "err::")):
+            continue
+        hit = path.startswith(("writer::", "<writer::", "io::limited_reader::"))
+        for i in range(b["arg_count"]):
+            t = F.types[b["locals"][i + 1][0]]
+            if not (isinstance(t, dict) and t["k"] == "ref" and t["mut"]):
+                continue
+            to = F.types[t["to"]]
+            if not isinstance(to, dict):
+                continue
+            name = path.rsplit("::", 1)[-1]
+            if to["k"] == "param" and not name.startswith(("read", "skip")) and b.get("trait") is None:
+                hit = True
+            elif _is_u8_seq(F, to):
+                hit = True
+            elif to["k"] == "adt" and (to["path"].startswith("writer::") or
+                                       (to["path"].endswith("::Vec") and any("t" in a and F.types[a["t"]] == "u8" for a in to["args"]))):
+                hit = True
+        if hit:
+            roots.append(path)
+    return roots
